@@ -358,18 +358,55 @@ func checkC03(c *Ctx, r *Report) {
 			recv, ok := resolveVal(callArgs(call)[0]).(*ssa.Call)
 			return ok && calleeName(recv) == "time.Now"
 		}
+		var kindOfVal func(v ssa.Value, vctx dctx, cond lits, pe map[*ssa.Phi]ssa.Value, depth int) string
 		kindOf := func(p bsPath) string {
 			if len(p.vals) == 0 {
 				return "?"
 			}
-			v := p.vals[0]
+			return kindOfVal(p.vals[0], nil, p.cond, p.pe, 0)
+		}
+		kindOfVal = func(v ssa.Value, vctx dctx, cond lits, pe map[*ssa.Phi]ssa.Value, depth int) string {
 			for i := 0; i < 4; i++ {
-				if phi, ok := v.(*ssa.Phi); ok && p.pe != nil && p.pe[phi] != nil {
-					v = p.pe[phi]
+				if phi, ok := v.(*ssa.Phi); ok && pe != nil && pe[phi] != nil {
+					v = pe[phi]
+				}
+			}
+			// the value a helper hands back together with an ok flag (expires, ok := hd.declaredExpiry()): of the helper's
+			// ways through, the one this path took — the one whose conditions the path shares — decides the source
+			if ex, isEx := v.(*ssa.Extract); isEx && depth < 2 {
+				if hcall, isC := ex.Tuple.(*ssa.Call); isC {
+					if h := helperBody(hcall); h != nil {
+						nenv := map[string]string{}
+						for i, q := range h.Params {
+							if a := callArgs(hcall); i < len(a) {
+								nm, _ := normValueName(a[i], map[string]string{})
+								nenv["$"+pname(q)] = nm
+							}
+						}
+						if paths, okS := bs.summarise(h, nenv, 1); okS {
+							kinds := map[string]bool{}
+							for _, q := range paths {
+								consistent := true
+								for a, val := range q.cond {
+									if pv, has := cond[a]; !has || pv != val {
+										consistent = false
+									}
+								}
+								if consistent && ex.Index < len(q.vals) {
+									kinds[kindOfVal(q.vals[ex.Index], append(append(dctx{}, vctx...), hcall), q.cond, q.pe, depth+1)] = true
+								}
+							}
+							if len(kinds) == 1 {
+								for k := range kinds {
+									return k
+								}
+							}
+						}
+					}
 				}
 			}
 			fromMax, fromExp, fromDef := false, false, false
-			derivesFromDeep(v, nil, func(x ssa.Value, cx dctx) bool {
+			derivesFromDeep(v, vctx, func(x ssa.Value, cx dctx) bool {
 				if _, pth := ctxFieldPath(x, cx); len(pth) > 0 && pth[len(pth)-1] == "maxAge" {
 					fromMax = true
 				}
